@@ -287,6 +287,39 @@ impl Qcow2Header {
             return Err(format!("qcow2 cluster size {cluster_size} is too big").into());
         }
 
+        if header.crypt_method != 0 {
+            let m = header.crypt_method;
+            return Err(format!("qcow2 encryption (method {m}) is not supported").into());
+        }
+
+        let refcount_order = header.refcount_order;
+        if refcount_order > 6 {
+            return Err(format!("qcow2 refcount_order {refcount_order} is invalid").into());
+        }
+
+        if header.version == 3 {
+            let header_length = header.header_length as u64;
+            if header_length < 104 || header_length & 7 != 0 || header_length > cluster_size {
+                return Err(format!("qcow2 header_length {header_length} is invalid").into());
+            }
+            // the compression type field only exists in longer headers
+            if header_length > 104 && header.compression_type != 0 {
+                let t = header.compression_type;
+                return Err(format!("qcow2 compression type {t} is not supported").into());
+            }
+        }
+
+        // both tables are kept in ram, so don't trust sizes beyond the format limits
+        let l1_size = header.l1_size;
+        if l1_size as u64 > Self::MAX_L1_SIZE as u64 / size_of::<u64>() as u64 {
+            return Err(format!("qcow2 L1 table with {l1_size} entries is too big").into());
+        }
+
+        let rt_clusters = header.refcount_table_clusters as u64;
+        if rt_clusters == 0 || rt_clusters * cluster_size > Self::MAX_REFCOUNT_TABLE_SIZE as u64 {
+            return Err(format!("qcow2 refcount table of {rt_clusters} clusters is invalid").into());
+        }
+
         // the spec requires both tables to start at a cluster boundary,
         // and the cluster walk in check() relies on it
         let l1_table_offset = header.l1_table_offset;
